@@ -9,8 +9,8 @@ Local Open Scope nat_scope.
 Lemma list_set_map : forall {A B} (g : A -> B) i x (l : list A), list_set i (g x) (map g l) = map g (list_set i x l).
 Proof. intros A B g i x l. revert i. induction l as [|y r IH]; intros [|i]; cbn; try reflexivity. f_equal. apply IH. Qed.
 
-Lemma combine_map_l : forall {A B C} (g : A -> A) (a : list A) (b : list B), combine (map g a) b = map (fun p => (g (fst p), snd p)) (combine a b).
-Proof. intros A B C g. induction a as [|x r IH]; intros [|y ys]; cbn; try reflexivity. f_equal. apply IH. Qed.
+Lemma combine_map_l : forall {A B} (g : A -> A) (a : list A) (b : list B), combine (map g a) b = map (fun p => (g (fst p), snd p)) (combine a b).
+Proof. intros A B g. induction a as [|x r IH]; intros [|y ys]; cbn; try reflexivity. f_equal. apply IH. Qed.
 
 Lemma existsb_map : forall {A} (p : A -> bool) (g : A -> A) l, (forall x, p (g x) = p x) -> existsb p (map g l) = existsb p l.
 Proof. intros A p g l Hp. induction l as [|x r IH]; cbn; [reflexivity|]. rewrite Hp, IH. reflexivity. Qed.
